@@ -166,6 +166,10 @@ func (c c18Call) String() string {
 // c18Run executes one call sequence and returns a diff or nil, plus Steps are not counted (Run).
 func c18Run(calls []c18Call) []string { return c18RunW(calls, [2]int{0, 0}) }
 
+// c18InitIFF: the interrupt enable state the caller runs under (both flip-flops); checkC18 runs the call pairs
+// under both. Single-threaded check.
+var c18InitIFF bool
+
 func c18RunW(calls []c18Call, wk [2]int) []string {
 	mem, io := tinycpm.New()
 	var warn bytes.Buffer
@@ -236,6 +240,7 @@ func c18RunW(calls []c18Call, wk [2]int) []string {
 	cpu.PC = tinycpm.Start
 	const sp0 = 0xF000
 	cpu.SP = sp0
+	cpu.IFF1, cpu.IFF2 = c18InitIFF, c18InitIFF
 	for _, b := range bps {
 		cpu.BreakPoints[b] = struct{}{}
 	}
@@ -266,6 +271,9 @@ func c18RunW(calls []c18Call, wk [2]int) []string {
 			}
 			if cpu.SP != sp0 {
 				d = append(d, fmt.Sprintf("after call #%d (%v): SP=%04X, want %04X", hit, calls[hit-1], cpu.SP, sp0))
+			}
+			if cpu.IFF1 != c18InitIFF || cpu.IFF2 != c18InitIFF {
+				d = append(d, fmt.Sprintf("after call #%d (%v): the caller's interrupt enable state changed: IFF1=%v IFF2=%v, before the call both were %v (control does not return to the caller as it left: a caller running under DI is now interruptible, or the other way round)", hit, calls[hit-1], cpu.IFF1, cpu.IFF2, c18InitIFF))
 			}
 			for a := uint16(tinycpm.Start); a < codeEnd; a++ {
 				if mem.Get(a) != before[a] {
@@ -470,6 +478,17 @@ func checkC18(c *Ctx) {
 			}
 		}
 	}
+	// the caller runs with interrupts enabled: all call pairs again
+	c18InitIFF = true
+	wk = [2]int{0, 0}
+	for _, a := range calls {
+		for _, b := range calls {
+			if ok && a.Kind != "unsupported" {
+				ok = run("sequence", []c18Call{a, b})
+			}
+		}
+	}
+	c18InitIFF = false
 	// a console writer that never takes a byte: the program still runs to its end
 	wk = [2]int{4, 0}
 	for _, a := range calls[:6] {
@@ -505,7 +524,7 @@ func checkC18(c *Ctx) {
 	c.Transitions = n
 	c.Traces = n
 	c.Exhaustive = true
-	c.Rule = fmt.Sprintf("real tinycpm machine + real CPU.Run, a breakpoint after every call: function 2 with all 256 E values; function 9 with every string over the alphabet {00,23,25,7F,80,FF,'A'} of length 0..3 (%d strings) at addresses {0200,7FFF,FD00} and ending right below the BDOS entry (terminator at FE05), every single non-'$' byte value, lengths {0,1,255,256,257,4095,4096} across page boundaries; all call sequences of length <=%d over a 15-letter alphabet {fn2(x), fn2('$'), fn2(0), 3 fn9 strings, unsupported fn 0/1/10/255, OUT (0)/(1)/(255), IN (0)/(7)}; the host replacing the console writer (SetStdout) between two calls, for every pair of writer kinds {bytes.Buffer, a writer with only Write, such a writer inside whose Write a second independent tinycpm machine prints to its own console}; a writer that never takes a byte (every Write answers io.ErrShortWrite: the program still runs to its end); a writer whose 2nd Write fails, replaced afterwards (the replacement receives everything printed after it was installed); every writer kind alone with all 256 byte values and all call pairs; exit via JP 0; the command-line runner cmd/zexdoc (built from the current tree) on generated program images as zexdoc.cim / zexall.cim (-all), stdout through a pipe: all call pairs, long output (0..70000 bytes), runs that end abnormally (unsupported function, HALT in the program, unwritable -memprof path), the image delivered through a named pipe in two parts: stdout carries exactly the bytes printed before the end, the exit status is 0 exactly for the normal end. Oracle: console writer receives exactly the specified bytes in order; after every call PC is the instruction after the CALL, SP and the caller's code bytes are unchanged; final halt at FF03; exactly one warning per port!=0 write and per port read; nothing else in memory changed. Non-trivial: every case with at least one call (counted).", len(strs), depth)
+	c.Rule = fmt.Sprintf("real tinycpm machine + real CPU.Run, a breakpoint after every call: function 2 with all 256 E values; function 9 with every string over the alphabet {00,23,25,7F,80,FF,'A'} of length 0..3 (%d strings) at addresses {0200,7FFF,FD00} and ending right below the BDOS entry (terminator at FE05), every single non-'$' byte value, lengths {0,1,255,256,257,4095,4096} across page boundaries; all call sequences of length <=%d over a 15-letter alphabet {fn2(x), fn2('$'), fn2(0), 3 fn9 strings, unsupported fn 0/1/10/255, OUT (0)/(1)/(255), IN (0)/(7)}; the host replacing the console writer (SetStdout) between two calls, for every pair of writer kinds {bytes.Buffer, a writer with only Write, such a writer inside whose Write a second independent tinycpm machine prints to its own console}; a writer that never takes a byte (every Write answers io.ErrShortWrite: the program still runs to its end); a writer whose 2nd Write fails, replaced afterwards (the replacement receives everything printed after it was installed); every writer kind alone with all 256 byte values and all call pairs; exit via JP 0; the command-line runner cmd/zexdoc (built from the current tree) on generated program images as zexdoc.cim / zexall.cim (-all), stdout through a pipe: all call pairs, long output (0..70000 bytes), runs that end abnormally (unsupported function, HALT in the program, unwritable -memprof path), the image delivered through a named pipe in two parts: stdout carries exactly the bytes printed before the end, the exit status is 0 exactly for the normal end. Oracle: console writer receives exactly the specified bytes in order; after every call PC is the instruction after the CALL, SP, the caller's code bytes and the caller's interrupt enable state (IFF1/IFF2; call pairs run under both states) are unchanged; final halt at FF03; exactly one warning per port!=0 write and per port read; nothing else in memory changed. Non-trivial: every case with at least one call (counted).", len(strs), depth)
 	c.Bound = fmt.Sprintf("call sequences <=%d", depth)
 	c.Sample(c18Case{Calls: []c18Call{{Kind: "fn9", Str: []uint8{0xFF, 0x00, 'z'}, Addr: 0x03FE}, {Kind: "out", Port: 1}, {Kind: "fn2", E: '$'}}})
 	c.Assume("strings lie outside page 0, the BIOS pages and the stack (statement: 'arbitrary addresses outside the BIOS pages')")
